@@ -102,9 +102,10 @@ def highlightChars (code : Nat) (fill : Bool) (s : Str) : Option (Str × Nat × 
        else some (s'.take st ++ ((s'.drop st).take (end_ - st)).map hl ++ s'.drop end_, st, end_))
   | _, _ => some (s, 0, s.length)
 
-/-- tail of `braille_mathml`: style "Off" bypasses the highlighting code -/
-def brailleResult (code : Nat) (style : String) (s : Str) : Option (Str × Nat × Nat) :=
-  if style = "Off" then some (s, 0, s.length) else highlightChars code (style = "All") s
+/-- tail of `braille_mathml`: style "Off", or no node with the navigation id met during the match (`found = false`: an empty or unknown
+id), bypasses the highlighting code -- a cell that has dots 7-8 by itself (the row separator ⣍) is then not taken for a mark -/
+def brailleResult (code : Nat) (style : String) (found : Bool) (s : Str) : Option (Str × Nat × Nat) :=
+  if style = "Off" || !found then some (s, 0, s.length) else highlightChars code (style = "All") s
 
 /-- the cell with dots 7 and 8 cleared -/
 def erase78 (c : Nat) : Nat := c / 256 * 256 + c % 64
